@@ -177,14 +177,18 @@ def handle (j : Json) : Json :=
         let brs := (List.range g.size).filter (fun b => g.kind b == .branch)
         let arms := brs.map (fun b =>
           let x := (scrutinee g b).getD 0
-          let want := (choiceOf (g.kind x)).kind
+          let choice := choiceOf (g.kind x)
+          let want := choice.kind
+          let upcast := match choice with
+            | .default => true
+            | .user k => targetOf k == .any
           Json.mkObj [("scrutinee", jstr (kindStr (g.kind x))), ("handler", jstr (kindStr want)),
-            ("shape", Json.bool (armShape g b want obs))])
+            ("upcast", Json.bool upcast), ("shape", Json.bool (armShape g b want upcast obs))])
         let gp := pruneObsInputs g
         let re := injectBranching (spliceAll obs (unsplice gp))
         Json.mkObj [("root", jstr (((findRoot g).map (fun r => kindStr (g.kind r))).getD "?")),
           ("ordered", Json.bool g.ordered), ("wf", Json.bool (armsWF g)), ("arms", Json.arr arms.toArray),
-          ("resplice", Json.bool (canon re == canon gp)),
+          ("resplice", Json.bool (canon re == canon gp)), ("spliceReady", Json.bool (spliceReady (unsplice gp))),
           ("invariant", Json.bool (invariantHolds g obs.length && invariantHolds re obs.length))])
       Json.mkObj [("route", jnat h), ("known", Json.bool info.isSome),
         ("chain", Json.arr (((info.map (·.chain)).getD []).map (fun m => jstr (s!"m{m.id}"))).toArray),
